@@ -92,3 +92,90 @@ Theorem C01_alias_can_be_a_keyword_refuted :
   /\ (forall s, is_identifier (make_identifier s) = false <-> In (munge false s) go_keywords).
 Proof. split; [exact make_identifier_keyword_refuted | exact make_identifier_fails_iff]. Qed.
 Print Assumptions C01_alias_can_be_a_keyword_refuted.
+
+(* ================= no dangling type reference at the converter's interfaces ================= *)
+From Verif Require Import Gen.Gql Gen.Directive Gen.Convert Proofs.ConvertFuel Proofs.ConvertExt Proofs.ConvertBound.
+
+(* every Go type that one of the four mutually recursive converter functions returns, and every
+   field type of a field list that convert_selection_set returns, names a declaration that is in
+   the returned type map (for every schema, configuration, fragment table, source text, fuel) *)
+Theorem C01_returned_types_are_declared :
+  forall sch cfg frags srcs f,
+    (forall src prefix t sels opts Q tm, post (fun tm' r => bound tm' (fst r)) (convert_type sch cfg frags srcs f src prefix t sels opts Q tm))
+    /\ (forall src prefix def sels opts Q tm, post (fun tm' g => bound tm' g) (convert_definition sch cfg frags srcs f src prefix def sels opts Q tm))
+    /\ (forall src prefix sels containing Q tm, post (fun tm' fs => fields_bound tm' fs) (convert_selection_set sch cfg frags srcs f src prefix sels containing Q tm))
+    /\ (forall fr tm, post (fun tm' g => bound tm' g) (convert_named_fragment sch cfg frags srcs f fr tm)).
+Proof. exact convert_bound. Qed.
+Print Assumptions C01_returned_types_are_declared.
+
+(* ... and, because no declaration is ever removed (Proofs/ConvertExt.v), at the end of a run the
+   input struct and the response type of EVERY operation -- the types the generated helper
+   functions mention -- are declared in the final type map *)
+Theorem C01_operation_types_are_declared :
+  forall sch cfg frags srcs ops tm infos,
+    generate_types sch cfg frags srcs ops = Ok (tm, infos) -> Forall (op_declared tm) infos.
+Proof. exact generate_types_operation_types_declared_FUEL. Qed.
+Print Assumptions C01_operation_types_are_declared.
+
+(* ================= no dangling type reference inside the declarations ================= *)
+From Verif Require Import Proofs.ConvertClosed.
+
+(* the type map stays field-closed through every step of the converter: if every field type of
+   every struct declaration and every shared-field type of every interface declaration names a
+   declaration of the map before a call, so it does in the map the call returns *)
+Theorem C01_converter_keeps_the_type_map_closed :
+  forall sch cfg frags srcs f,
+    (forall src prefix t sels opts Q tm, cp tm (convert_type sch cfg frags srcs f src prefix t sels opts Q tm))
+    /\ (forall src prefix def sels opts Q tm, cp tm (convert_definition sch cfg frags srcs f src prefix def sels opts Q tm))
+    /\ (forall src prefix sels containing Q tm, cp tm (convert_selection_set sch cfg frags srcs f src prefix sels containing Q tm))
+    /\ (forall fr tm, cp tm (convert_named_fragment sch cfg frags srcs f fr tm)).
+Proof. exact convert_closed. Qed.
+Print Assumptions C01_converter_keeps_the_type_map_closed.
+
+(* whenever generation succeeds -- every schema, configuration, fragment table, source text and
+   operation list -- no struct field and no interface getter of ANY generated declaration mentions
+   a struct, interface, enum or alias type that the file does not declare *)
+Theorem C01_declarations_mention_only_declared_types :
+  forall sch cfg frags srcs ops tm infos,
+    generate_types sch cfg frags srcs ops = Ok (tm, infos) ->
+    forall n d, assoc n tm = Some d -> Forall (fun fl => bound tm (gf_type fl)) (decl_fields d).
+Proof. intros sch cfg frags srcs ops tm infos H. exact (generate_types_closed_FUEL _ _ _ _ _ _ _ H). Qed.
+Print Assumptions C01_declarations_mention_only_declared_types.
+
+(* non-vacuity: the witness program generates and has struct fields of declared struct types *)
+Theorem C01_closedness_witness :
+  exists tm infos, generate_types ConvertFuel.t_schema ConvertProofs.w_cfg ConvertFuel.t_frags [] [ConvertFuel.t_op] = Ok (tm, infos) /\ closedF tm
+    /\ exists n d fl m, assoc n tm = Some d /\ In fl (decl_fields d) /\ unwrap (gf_type fl) = GStruct m.
+Proof. exact t_closed_witness. Qed.
+Print Assumptions C01_closedness_witness.
+
+(* ================= ... and in the interface declarations ================= *)
+From Verif Require Import Proofs.ConvertImpls.
+
+(* not an invariant of single steps (convert_named_fragment registers an interface with the names
+   of its implementation structs BEFORE it generates them); what every call satisfies is a frame
+   statement: the map is extended, and a declaration of the returned map is either a declaration
+   of the incoming map, unchanged, or lists declared implementations only *)
+Theorem C01_converter_registers_every_listed_implementation :
+  forall sch cfg frags srcs f,
+    (forall src prefix t sels opts Q tm, T tm (convert_type sch cfg frags srcs f src prefix t sels opts Q tm))
+    /\ (forall src prefix def sels opts Q tm, T tm (convert_definition sch cfg frags srcs f src prefix def sels opts Q tm))
+    /\ (forall src prefix sels containing Q tm, T tm (convert_selection_set sch cfg frags srcs f src prefix sels containing Q tm))
+    /\ (forall fr tm, T tm (convert_named_fragment sch cfg frags srcs f fr tm)).
+Proof. exact convert_impls. Qed.
+Print Assumptions C01_converter_registers_every_listed_implementation.
+
+(* whenever generation succeeds, every implementation that an interface declaration lists -- the
+   arms of its generated __unmarshal / __marshal type switch -- is declared in the file *)
+Theorem C01_interface_implementations_are_declared :
+  forall sch cfg frags srcs ops tm infos,
+    generate_types sch cfg frags srcs ops = Ok (tm, infos) ->
+    forall n d, assoc n tm = Some d -> Forall (fun i => assoc i tm <> None) (impls_of d).
+Proof. exact generate_types_impls_declared_FUEL. Qed.
+Print Assumptions C01_interface_implementations_are_declared.
+
+Theorem C01_implementations_witness :
+  exists tm infos, generate_types ConvertFuel.t_schema ConvertProofs.w_cfg ConvertFuel.t_frags [] [ConvertFuel.t_op] = Ok (tm, infos)
+    /\ existsb (fun nd => match impls_of (snd nd) with [] => false | _ => true end) tm = true.
+Proof. exact t_impls_witness. Qed.
+Print Assumptions C01_implementations_witness.
